@@ -350,7 +350,8 @@ func (u *Uint) OtherOp(other *Uint) *Uint {
 
 // IsNegative checks the Uint would have been wrapped around if interpreted as an element of in [-n/2, n/2).
 func (u *Uint) IsNegative() bool {
-	return !u.Lift().IsLessThanOrEqual(u.Modulus().Increment().Rsh(1).Lift())
+	// negative iff 2u >= n, i.e. iff u >= ceil(n/2)
+	return u.Modulus().Increment().Rsh(1).Lift().IsLessThanOrEqual(u.Lift())
 }
 
 // TryOpInv returns the additive inverse of the Uint element.
